@@ -1,36 +1,672 @@
 /-
-L4: gates (interface stub — replaced by the full transcription of plonky2/src/gates/*.rs).
+L2: the built-in gates of plonky2 (`/repo/plonky2/src/gates/*.rs`) as executable constraint
+evaluators, written ONCE over the operations record `FOps K` and instantiated at `K = GL`
+(`eval_unfiltered_base_*`), `K = GL2` (`eval_unfiltered`, and what `eval_unfiltered_circuit`
+computes in-circuit) and any Mathlib field in proof files.
+
+Extension-algebra wires.  When the Rust code evaluates over the extension field it reads D = 2
+consecutive wires as an `ExtensionAlgebra<F::Extension, 2>` (`get_local_ext_algebra`); when it
+evaluates over the base field it reads them as an `F::Extension` (`get_local_ext`).  Both are
+"pairs over K with (a0,a1)·(b0,b1) = (a0·b0 + 7·a1·b1, a0·b1 + a1·b0)", so one type `Alg K`
+serves both; the constraints of an algebra-valued equation are its two components
+(`to_basefield_array`).
+
+Every function is total: out-of-range reads give `default` (the Rust code would panic; the
+harness never sends such rows).
 -/
 import P2.Model.Fp
 import P2.Model.GL2
+import P2.Gen.Poseidon
 namespace P2.Gates
 open P2
 
+/-! ## `Alg K` : `ExtensionAlgebra<F::Extension, 2>` / `QuadraticExtension<F>` over `K` -/
+
+/-- pairs over `K`, multiplication modulo `X² − 7` (`field/src/extension/algebra.rs`,
+`field/src/extension/quadratic.rs`) -/
+def Alg (K : Type) : Type := K × K
+
+namespace Alg
+variable {K : Type} [FOps K]
+/-- `F::W` = 7 for Goldilocks, embedded in `K` -/
+def W : K := FOps.ofNat 7
+def mk (a b : K) : Alg K := (a, b)
+def zero : Alg K := (FOps.zero, FOps.zero)
+/-- `From<F>` / `ExtensionAlgebra::one`: the scalar goes to component 0 -/
+def ofK (x : K) : Alg K := (x, FOps.zero)
+def one : Alg K := ofK FOps.one
+def add (x y : Alg K) : Alg K := (x.1 + y.1, x.2 + y.2)
+def sub (x y : Alg K) : Alg K := (x.1 - y.1, x.2 - y.2)
+/-- `Mul for ExtensionAlgebra` with D = 2: `res[(i+j)%2] += (i+j<2 ? 1 : w)·a[i]·b[j]` -/
+def mul (x y : Alg K) : Alg K := (x.1 * y.1 + W * (x.2 * y.2), x.1 * y.2 + x.2 * y.1)
+/-- `scalar_mul` -/
+def smul (x : Alg K) (s : K) : Alg K := (x.1 * s, x.2 * s)
+/-- `to_basefield_array` -/
+def comps (x : Alg K) : List K := [x.1, x.2]
+instance : Add (Alg K) := ⟨add⟩
+instance : Sub (Alg K) := ⟨sub⟩
+instance : Mul (Alg K) := ⟨mul⟩
+instance [Inhabited K] : Inhabited (Alg K) := ⟨(default, default)⟩
+end Alg
+
+/-! ## gate descriptors and evaluation variables -/
+
 inductive GateKind where
-  | arithmetic (numOps : Nat) | arithmeticExt (numOps : Nat) | mulExt (numOps : Nat)
-  | baseSum (base numLimbs : Nat) | constant (numConsts : Nat)
+  | arithmetic (numOps : Nat)
+  | arithmeticExt (numOps : Nat)
+  | mulExt (numOps : Nat)
+  | baseSum (base numLimbs : Nat)
+  | constant (numConsts : Nat)
   | cosetInterpolation (subgroupBits degree : Nat) (barycentricWeights : List Nat)
   | exponentiation (numPowerBits : Nat)
-  | lookup (numSlots : Nat) | lookupTable (numSlots : Nat)
-  | noop | poseidon | poseidonMds | publicInput
+  | lookup (numSlots : Nat)
+  | lookupTable (numSlots : Nat)
+  | noop
+  | poseidon
+  | poseidonMds
+  | publicInput
   | randomAccess (bits numCopies numExtraConstants : Nat)
-  | reducing (numCoeffs : Nat) | reducingExt (numCoeffs : Nat)
-deriving Repr, Inhabited
+  | reducing (numCoeffs : Nat)
+  | reducingExt (numCoeffs : Nat)
+deriving Repr, DecidableEq, Inhabited
 
+/-- `EvaluationVars` / `EvaluationVarsBase`: the gate's own constants (selectors already
+stripped), the local wires, and the public-inputs hash embedded into `K` -/
 structure EvalVars (K : Type) where
   constants : Array K
   wires : Array K
   pih : Array K
 
+section Eval
 variable {K : Type} [FOps K] [Inhabited K]
 
+/-- `vars.local_wires[i]` -/
+@[inline] def EvalVars.w (v : EvalVars K) (i : Nat) : K := v.wires[i]!
+/-- `vars.local_constants[i]` -/
+@[inline] def EvalVars.c (v : EvalVars K) (i : Nat) : K := v.constants[i]!
+/-- `get_local_ext_algebra(i..i+2)` / `get_local_ext(i..i+2)` -/
+@[inline] def EvalVars.alg (v : EvalVars K) (i : Nat) : Alg K := (v.wires[i]!, v.wires[i + 1]!)
+
+@[inline] def kOf (n : Nat) : K := FOps.ofNat n
+
+/-! ### arithmetic_base.rs -/
+
+/-- `ArithmeticGate::eval_unfiltered`: `output − (m0·m1·c0 + addend·c1)` per operation;
+wires `4i, 4i+1, 4i+2, 4i+3` -/
+def evalArithmetic (numOps : Nat) (v : EvalVars K) : List K :=
+  (List.range numOps).map fun i =>
+    v.w (4 * i + 3) - (v.w (4 * i) * v.w (4 * i + 1) * v.c 0 + v.w (4 * i + 2) * v.c 1)
+
+/-! ### arithmetic_extension.rs -/
+
+/-- `ArithmeticExtensionGate::eval_unfiltered`: algebra wires at `8i, 8i+2, 8i+4, 8i+6`;
+`output − ((m0·m1).scalar_mul(c0) + addend.scalar_mul(c1))`, two components each -/
+def evalArithmeticExt (numOps : Nat) (v : EvalVars K) : List K :=
+  (List.range numOps).flatMap fun i =>
+    let m0 := v.alg (8 * i); let m1 := v.alg (8 * i + 2)
+    let addend := v.alg (8 * i + 4); let output := v.alg (8 * i + 6)
+    (output - ((m0 * m1).smul (v.c 0) + addend.smul (v.c 1))).comps
+
+/-! ### multiplication_extension.rs -/
+
+/-- `MulExtensionGate::eval_unfiltered`: algebra wires at `6i, 6i+2, 6i+4`;
+`output − (m0·m1).scalar_mul(c0)` -/
+def evalMulExt (numOps : Nat) (v : EvalVars K) : List K :=
+  (List.range numOps).flatMap fun i =>
+    let m0 := v.alg (6 * i); let m1 := v.alg (6 * i + 2); let output := v.alg (6 * i + 4)
+    (output - (m0 * m1).smul (v.c 0)).comps
+
+/-! ### base_sum.rs -/
+
+/-- `BaseSumGate<B>::eval_unfiltered`: `reduce_with_powers(limbs, B) − sum`, then per limb the
+range check `∏_{i<B} (limb − i)`; `WIRE_SUM = 0`, limbs at `1 .. 1+numLimbs` -/
+def evalBaseSum (base numLimbs : Nat) (v : EvalVars K) : List K :=
+  let limbs := (List.range numLimbs).map fun i => v.w (1 + i)
+  let computedSum := FOps.reduceWithPowers limbs (kOf base)
+  (computedSum - v.w 0) ::
+    limbs.map fun limb => FOps.prod ((List.range base).map fun i => limb - kOf i)
+
+/-! ### constant.rs -/
+
+/-- `ConstantGate::eval_unfiltered`: `constants[i] − wires[i]` -/
+def evalConstant (numConsts : Nat) (v : EvalVars K) : List K :=
+  (List.range numConsts).map fun i => v.c i - v.w i
+
+/-! ### coset_interpolation.rs -/
+
+/-- `F::two_adic_subgroup(bits)`: powers of `primitive_root_of_unity(bits)`, as naturals -/
+def twoAdicSubgroup (bits : Nat) : List Nat :=
+  let g := GL.primitiveRoot bits
+  ((List.range (2 ^ bits)).foldl (fun (acc : List Nat × GL) _ => (acc.2.val :: acc.1, acc.2 * g))
+    ([], (1 : GL))).1.reverse
+
+/-- `partial_interpolate` / `partial_interpolate_ext_algebra`: one barycentric pass over
+`(domain, value, weight)` triples from `(initial_eval, initial_partial_prod)` -/
+def partialInterpolate (pts : List (Nat × Alg K × Nat)) (x : Alg K) (init : Alg K × Alg K) :
+    Alg K × Alg K :=
+  pts.foldl (fun (acc : Alg K × Alg K) (p : Nat × Alg K × Nat) =>
+    let (eval, prod) := acc
+    let val := p.2.1.smul (kOf p.2.2)          -- value.scalar_mul(weight)
+    let term := x - Alg.ofK (kOf p.1)          -- x − x_i
+    (eval * term + val * prod, prod * term)) init
+
+/-- number of points, intermediates and the wire layout of `CosetInterpolationGate` (D = 2) -/
+def cosetNumPoints (bits : Nat) : Nat := 2 ^ bits
+def cosetNumIntermediates (bits degree : Nat) : Nat := (cosetNumPoints bits - 2) / (degree - 1)
+def cosetStartValues : Nat := 1
+def cosetStartEvaluationPoint (bits : Nat) : Nat := cosetStartValues + cosetNumPoints bits * 2
+def cosetStartEvaluationValue (bits : Nat) : Nat := cosetStartEvaluationPoint bits + 2
+def cosetStartIntermediates (bits : Nat) : Nat := cosetStartEvaluationValue bits + 2
+def cosetWiresIntermediateEval (bits i : Nat) : Nat := cosetStartIntermediates bits + 2 * i
+def cosetWiresIntermediateProd (bits degree i : Nat) : Nat :=
+  cosetStartIntermediates bits + 2 * (cosetNumIntermediates bits degree + i)
+def cosetWiresShiftedEvaluationPoint (bits degree : Nat) : Nat :=
+  cosetStartIntermediates bits + 2 * 2 * cosetNumIntermediates bits degree
+def cosetEnd (bits degree : Nat) : Nat :=
+  cosetStartIntermediates bits + 2 * (2 * cosetNumIntermediates bits degree + 1)
+
+/-- `(domain[i], values[i], weights[i])` for `i ∈ [lo, hi)` -/
+def cosetTriples (domain : Array Nat) (values : Array (Alg K)) (weights : Array Nat)
+    (lo hi : Nat) : List (Nat × Alg K × Nat) :=
+  (List.range (hi - lo)).map fun k => (domain[lo + k]!, values[lo + k]!, weights[lo + k]!)
+
+/-- `CosetInterpolationGate::eval_unfiltered` -/
+def evalCosetInterpolation (bits degree : Nat) (weights : List Nat) (v : EvalVars K) : List K :=
+  let n := cosetNumPoints bits
+  let shift := v.w 0
+  let evaluationPoint := v.alg (cosetStartEvaluationPoint bits)
+  let shifted := v.alg (cosetWiresShiftedEvaluationPoint bits degree)
+  let c0 := (evaluationPoint - shifted.smul shift).comps
+  let domain := (twoAdicSubgroup bits).toArray
+  let values : Array (Alg K) := (Array.range n).map fun i => v.alg (cosetStartValues + 2 * i)
+  let ws := weights.toArray
+  let first := partialInterpolate (cosetTriples domain values ws 0 degree) shifted (Alg.zero, Alg.one)
+  let (cs, last) := (List.range (cosetNumIntermediates bits degree)).foldl
+    (fun (acc : List K × (Alg K × Alg K)) i =>
+      let (cs, (computedEval, computedProd)) := acc
+      let intermediateEval := v.alg (cosetWiresIntermediateEval bits i)
+      let intermediateProd := v.alg (cosetWiresIntermediateProd bits degree i)
+      let cs := cs ++ (intermediateEval - computedEval).comps ++ (intermediateProd - computedProd).comps
+      let startIndex := 1 + (degree - 1) * (i + 1)
+      let endIndex := min (startIndex + degree - 1) n
+      (cs, partialInterpolate (cosetTriples domain values ws startIndex endIndex) shifted
+        (intermediateEval, intermediateProd)))
+    (c0, first)
+  let evaluationValue := v.alg (cosetStartEvaluationValue bits)
+  cs ++ (evaluationValue - last.1).comps
+
+/-! ### exponentiation.rs -/
+
+/-- `ExponentiationGate::eval_unfiltered`: base at 0, power bits (LE) at `1+i`, output at `1+n`,
+intermediate values at `2+n+i` -/
+def evalExponentiation (n : Nat) (v : EvalVars K) : List K :=
+  let base := v.w 0
+  let powerBit := fun i => v.w (1 + i)
+  let intermediate := fun i => v.w (2 + n + i)
+  let output := v.w (1 + n)
+  let cs := (List.range n).map fun i =>
+    let prev := if i = 0 then FOps.one else intermediate (i - 1) * intermediate (i - 1)
+    let curBit := powerBit (n - i - 1)
+    let notCurBit := FOps.one - curBit
+    prev * (curBit * base + notCurBit) - intermediate i
+  cs ++ [output - intermediate (n - 1)]
+
+/-! ### poseidon.rs (gate) over `hash/poseidon.rs` (`*_field` layer functions) -/
+
+def spongeWidth : Nat := Gen.SPONGE_RATE + Gen.SPONGE_CAPACITY
+def halfNFullRounds : Nat := Gen.HALF_N_FULL_ROUNDS
+def nPartialRounds : Nat := Gen.N_PARTIAL_ROUNDS
+def nFullRoundsTotal : Nat := 2 * halfNFullRounds
+
+def allRoundConstants : Array Nat := Gen.ALL_ROUND_CONSTANTS.toArray
+def mdsMatrixCirc : Array Nat := Gen.MDS_MATRIX_CIRC.toArray
+def mdsMatrixDiag : Array Nat := Gen.MDS_MATRIX_DIAG.toArray
+def fastPartialFirstRoundConstant : Array Nat := Gen.FAST_PARTIAL_FIRST_ROUND_CONSTANT.toArray
+def fastPartialRoundConstants : Array Nat := Gen.FAST_PARTIAL_ROUND_CONSTANTS.toArray
+def fastPartialRoundVs : Array (Array Nat) := (Gen.FAST_PARTIAL_ROUND_VS.map List.toArray).toArray
+def fastPartialRoundWHats : Array (Array Nat) := (Gen.FAST_PARTIAL_ROUND_W_HATS.map List.toArray).toArray
+def fastPartialRoundInitialMatrix : Array (Array Nat) :=
+  (Gen.FAST_PARTIAL_ROUND_INITIAL_MATRIX.map List.toArray).toArray
+
+/-- `sbox_monomial`: x ↦ x⁷ as `x2 = x², x4 = x2², x3 = x·x2, x3·x4` -/
+def sboxMonomial (x : K) : K :=
+  let x2 := x * x
+  let x4 := x2 * x2
+  let x3 := x * x2
+  x3 * x4
+
+/-- `constant_layer_field(state, round_ctr)` -/
+def constantLayer (s : Array K) (roundCtr : Nat) : Array K :=
+  s.mapIdx fun i x => x + kOf allRoundConstants[i + spongeWidth * roundCtr]!
+
+/-- `sbox_layer_field` -/
+def sboxLayer (s : Array K) : Array K := s.map sboxMonomial
+
+/-- `mds_row_shf_field(r, v)` -/
+def mdsRowShf (r : Nat) (v : Array K) : K :=
+  let res := (List.range spongeWidth).foldl
+    (fun acc i => acc + v[(i + r) % spongeWidth]! * kOf mdsMatrixCirc[i]!) FOps.zero
+  res + v[r]! * kOf mdsMatrixDiag[r]!
+
+/-- `mds_layer_field` -/
+def mdsLayer (s : Array K) : Array K := (Array.range spongeWidth).map fun r => mdsRowShf r s
+
+/-- `partial_first_constant_layer` -/
+def partialFirstConstantLayer (s : Array K) : Array K :=
+  s.mapIdx fun i x => x + kOf fastPartialFirstRoundConstant[i]!
+
+/-- `mds_partial_layer_init`: `result[0] = state[0]`,
+`result[c] = Σ_{r ≥ 1} state[r] · M[r−1][c−1]` for `c ≥ 1` -/
+def mdsPartialLayerInit (s : Array K) : Array K :=
+  (Array.range spongeWidth).map fun c =>
+    if c = 0 then s[0]! else
+      (List.range (spongeWidth - 1)).foldl
+        (fun acc r => acc + s[r + 1]! * kOf (fastPartialRoundInitialMatrix[r]!)[c - 1]!) FOps.zero
+
+/-- `mds_partial_layer_fast_field(state, r)` -/
+def mdsPartialLayerFast (s : Array K) (r : Nat) : Array K :=
+  let s0 := s[0]!
+  let mds0to0 := mdsMatrixCirc[0]! + mdsMatrixDiag[0]!
+  let d := (List.range (spongeWidth - 1)).foldl
+    (fun d i => d + s[i + 1]! * kOf (fastPartialRoundWHats[r]!)[i]!) (s0 * kOf mds0to0)
+  (Array.range spongeWidth).map fun i =>
+    if i = 0 then d else s0 * kOf (fastPartialRoundVs[r]!)[i - 1]! + s[i]!
+
+/-- wire layout of `PoseidonGate` -/
+def posWireInput (i : Nat) : Nat := i
+def posWireOutput (i : Nat) : Nat := spongeWidth + i
+def posWireSwap : Nat := 2 * spongeWidth
+def posStartDelta : Nat := 2 * spongeWidth + 1
+def posWireDelta (i : Nat) : Nat := posStartDelta + i
+def posStartFull0 : Nat := posStartDelta + 4
+def posWireFullSbox0 (round i : Nat) : Nat := posStartFull0 + spongeWidth * (round - 1) + i
+def posStartPartial : Nat := posStartFull0 + spongeWidth * (halfNFullRounds - 1)
+def posWirePartialSbox (round : Nat) : Nat := posStartPartial + round
+def posStartFull1 : Nat := posStartPartial + nPartialRounds
+def posWireFullSbox1 (round i : Nat) : Nat := posStartFull1 + spongeWidth * round + i
+def posEnd : Nat := posStartFull1 + spongeWidth * halfNFullRounds
+
+/-- the possibly-swapped input layer: `state[i] = in[i] + δ_i`, `state[i+4] = in[i+4] − δ_i`
+for `i < 4`, `state[i] = in[i]` for `i ≥ 8` -/
+def posSwappedInputs (v : EvalVars K) : Array K :=
+  (Array.range spongeWidth).map fun i =>
+    if i < 4 then v.w (posWireInput i) + v.w (posWireDelta i)
+    else if i < 8 then v.w (posWireInput i) - v.w (posWireDelta (i - 4))
+    else v.w (posWireInput i)
+
+/-- one "S-box input is a wire" step: constraints `state[i] − sbox_in[i]`, state replaced -/
+def posCheckSboxIn (state : Array K) (cs : Array K) (wire : Nat → K) : Array K × Array K :=
+  let sboxIn := (Array.range spongeWidth).map wire
+  (sboxIn, (List.range spongeWidth).foldl (fun cs i => cs.push (state[i]! - sboxIn[i]!)) cs)
+
+/-- `PoseidonGate::eval_unfiltered` (the fast partial-round tables, exactly as the gate uses
+them) -/
+def evalPoseidon (v : EvalVars K) : List K :=
+  -- swap is binary; delta_i = swap · (rhs − lhs)
+  let swap := v.w posWireSwap
+  let cs : Array K := #[swap * (swap - FOps.one)]
+  let cs := (List.range 4).foldl (fun cs i =>
+    cs.push (swap * (v.w (posWireInput (i + 4)) - v.w (posWireInput i)) - v.w (posWireDelta i))) cs
+  let state := posSwappedInputs v
+  -- first set of full rounds (round 0's S-box inputs are not wires)
+  let (state, cs) := (List.range halfNFullRounds).foldl (fun (acc : Array K × Array K) r =>
+    let (state, cs) := acc
+    let state := constantLayer state r
+    let (state, cs) := if r ≠ 0 then posCheckSboxIn state cs (fun i => v.w (posWireFullSbox0 r i))
+                       else (state, cs)
+    (mdsLayer (sboxLayer state), cs)) (state, cs)
+  -- partial rounds
+  let state := mdsPartialLayerInit (partialFirstConstantLayer state)
+  let (state, cs) := (List.range (nPartialRounds - 1)).foldl (fun (acc : Array K × Array K) r =>
+    let (state, cs) := acc
+    let sboxIn := v.w (posWirePartialSbox r)
+    let cs := cs.push (state[0]! - sboxIn)
+    let s0 := sboxMonomial sboxIn + kOf fastPartialRoundConstants[r]!
+    (mdsPartialLayerFast (state.set! 0 s0) r, cs)) (state, cs)
+  let sboxIn := v.w (posWirePartialSbox (nPartialRounds - 1))
+  let cs := cs.push (state[0]! - sboxIn)
+  let state := mdsPartialLayerFast (state.set! 0 (sboxMonomial sboxIn)) (nPartialRounds - 1)
+  -- second set of full rounds
+  let roundCtr := halfNFullRounds + nPartialRounds
+  let (state, cs) := (List.range halfNFullRounds).foldl (fun (acc : Array K × Array K) r =>
+    let (state, cs) := acc
+    let state := constantLayer state (roundCtr + r)
+    let (state, cs) := posCheckSboxIn state cs (fun i => v.w (posWireFullSbox1 r i))
+    (mdsLayer (sboxLayer state), cs)) (state, cs)
+  let cs := (List.range spongeWidth).foldl (fun cs i => cs.push (state[i]! - v.w (posWireOutput i))) cs
+  cs.toList
+
+/-! ### poseidon_mds.rs -/
+
+/-- `mds_row_shf_algebra` -/
+def mdsRowShfAlg (r : Nat) (v : Array (Alg K)) : Alg K :=
+  let res := (List.range spongeWidth).foldl
+    (fun acc i => acc + (v[(i + r) % spongeWidth]!).smul (kOf mdsMatrixCirc[i]!)) Alg.zero
+  res + (v[r]!).smul (kOf mdsMatrixDiag[r]!)
+
+/-- `PoseidonMdsGate::eval_unfiltered`: inputs at `2i`, outputs at `2(12+i)`;
+`out − mds_layer_algebra(inputs)` componentwise -/
+def evalPoseidonMds (v : EvalVars K) : List K :=
+  let inputs : Array (Alg K) := (Array.range spongeWidth).map fun i => v.alg (2 * i)
+  (List.range spongeWidth).flatMap fun i =>
+    (v.alg (2 * (spongeWidth + i)) - mdsRowShfAlg i inputs).comps
+
+/-! ### public_input.rs -/
+
+/-- `PublicInputGate::eval_unfiltered`: `wires[i] − public_inputs_hash[i]`, `i < 4` -/
+def evalPublicInput (v : EvalVars K) : List K :=
+  (List.range 4).map fun i => v.w i - v.pih[i]!
+
+/-! ### random_access.rs -/
+
+def raVecSize (bits : Nat) : Nat := 2 ^ bits
+def raWireAccessIndex (bits copy : Nat) : Nat := (2 + raVecSize bits) * copy
+def raWireClaimedElement (bits copy : Nat) : Nat := (2 + raVecSize bits) * copy + 1
+def raWireListItem (bits i copy : Nat) : Nat := (2 + raVecSize bits) * copy + 2 + i
+def raStartExtraConstants (bits numCopies : Nat) : Nat := (2 + raVecSize bits) * numCopies
+def raWireExtraConstant (bits numCopies i : Nat) : Nat := raStartExtraConstants bits numCopies + i
+def raNumRoutedWires (bits numCopies numExtra : Nat) : Nat :=
+  raStartExtraConstants bits numCopies + numExtra
+def raWireBit (bits numCopies numExtra i copy : Nat) : Nat :=
+  raNumRoutedWires bits numCopies numExtra + copy * bits + i
+
+/-- `.tuples().map(|(x, y)| x + b·(y − x))`: fold adjacent pairs (a trailing odd element is
+dropped, as `tuples` does) -/
+def raFoldPairs (b : K) : List K → List K
+  | x :: y :: rest => (x + b * (y - x)) :: raFoldPairs b rest
+  | _ => []
+
+/-- `RandomAccessGate::eval_unfiltered` -/
+def evalRandomAccess (bits numCopies numExtra : Nat) (v : EvalVars K) : List K :=
+  let perCopy := (List.range numCopies).flatMap fun copy =>
+    let accessIndex := v.w (raWireAccessIndex bits copy)
+    let listItems := (List.range (raVecSize bits)).map fun i => v.w (raWireListItem bits i copy)
+    let claimed := v.w (raWireClaimedElement bits copy)
+    let bs := (List.range bits).map fun i => v.w (raWireBit bits numCopies numExtra i copy)
+    let boolean := bs.map fun b => b * (b - FOps.one)
+    let reconstructed := bs.reverse.foldl (fun acc b => (acc + acc) + b) FOps.zero
+    let folded := bs.foldl (fun items b => raFoldPairs b items) listItems
+    boolean ++ [reconstructed - accessIndex] ++ [folded.headD default - claimed]
+  perCopy ++ (List.range numExtra).map fun i => v.c i - v.w (raWireExtraConstant bits numCopies i)
+
+/-! ### reducing.rs -/
+
+/-- `ReducingGate::wires_accs(i)`: the last accumulator is the output (wires 0..2) -/
+def redWiresAccs (n i : Nat) : Nat := if i = n - 1 then 0 else (6 + n) + 2 * i
+
+/-- `ReducingGate::eval_unfiltered`: output 0..2, alpha 2..4, old_acc 4..6, coeffs `6+i`
+(base-field wires), accumulators after;  `acc·alpha + coeff − accs[i]` -/
+def evalReducing (n : Nat) (v : EvalVars K) : List K :=
+  let alpha := v.alg 2
+  let oldAcc := v.alg 4
+  ((List.range n).foldl (fun (st : Alg K × List K) i =>
+    let accI := v.alg (redWiresAccs n i)
+    (accI, st.2 ++ (st.1 * alpha + Alg.ofK (v.w (6 + i)) - accI).comps)) (oldAcc, [])).2
+
+/-! ### reducing_extension.rs -/
+
+/-- `ReducingExtensionGate::wires_accs(i)` -/
+def redExtWiresAccs (n i : Nat) : Nat := if i = n - 1 then 0 else (6 + 2 * n) + 2 * i
+
+/-- `ReducingExtensionGate::eval_unfiltered`: coefficients are algebra wires at `6+2i` -/
+def evalReducingExt (n : Nat) (v : EvalVars K) : List K :=
+  let alpha := v.alg 2
+  let oldAcc := v.alg 4
+  ((List.range n).foldl (fun (st : Alg K × List K) i =>
+    let accI := v.alg (redExtWiresAccs n i)
+    (accI, st.2 ++ (st.1 * alpha + v.alg (6 + 2 * i) - accI).comps)) (oldAcc, [])).2
+
+/-! ## dispatch -/
+
+/-- `Gate::eval_unfiltered` (= `eval_unfiltered_base_*` at `K = GL`) -/
 def GateKind.evalUnfiltered (g : GateKind) (v : EvalVars K) : List K :=
   match g with
-  | .arithmetic n => (List.range n).map fun i =>
-      v.wires[4 * i + 3]! - (v.wires[4 * i]! * v.wires[4 * i + 1]! * v.constants[0]! + v.wires[4 * i + 2]! * v.constants[1]!)
-  | .constant n => (List.range n).map fun i => v.constants[i]! - v.wires[i]!
-  | .publicInput => (List.range 4).map fun i => v.wires[i]! - v.pih[i]!
+  | .arithmetic n => evalArithmetic n v
+  | .arithmeticExt n => evalArithmeticExt n v
+  | .mulExt n => evalMulExt n v
+  | .baseSum b n => evalBaseSum b n v
+  | .constant n => evalConstant n v
+  | .cosetInterpolation bits d ws => evalCosetInterpolation bits d ws v
+  | .exponentiation n => evalExponentiation n v
+  | .lookup _ => []          -- `LookupGate`: "No main trace constraints for lookups."
+  | .lookupTable _ => []     -- `LookupTableGate`: same
   | .noop => []
+  | .poseidon => evalPoseidon v
+  | .poseidonMds => evalPoseidonMds v
+  | .publicInput => evalPublicInput v
+  | .randomAccess bits copies extra => evalRandomAccess bits copies extra v
+  | .reducing n => evalReducing n v
+  | .reducingExt n => evalReducingExt n v
+
+end Eval
+
+/-! ## declared shape: `num_constraints`, `degree`, `num_wires`, `num_constants` -/
+
+/-- `Gate::num_constraints` -/
+def GateKind.numConstraints : GateKind → Nat
+  | .arithmetic n => n
+  | .arithmeticExt n => n * 2
+  | .mulExt n => n * 2
+  | .baseSum _ n => 1 + n
+  | .constant n => n
+  | .cosetInterpolation bits d _ => 2 + 2 + 2 * 2 * cosetNumIntermediates bits d
+  | .exponentiation n => n + 1
+  | .lookup _ => 0
+  | .lookupTable _ => 0
+  | .noop => 0
+  | .poseidon => spongeWidth * (nFullRoundsTotal - 1) + nPartialRounds + spongeWidth + 1 + 4
+  | .poseidonMds => spongeWidth * 2
+  | .publicInput => 4
+  | .randomAccess bits copies extra => copies * (bits + 2) + extra
+  | .reducing n => 2 * n
+  | .reducingExt n => 2 * n
+
+/-- `Gate::degree` -/
+def GateKind.degree : GateKind → Nat
+  | .arithmetic _ => 3
+  | .arithmeticExt _ => 3
+  | .mulExt _ => 3
+  | .baseSum b _ => b
+  | .constant _ => 1
+  | .cosetInterpolation _ d _ => d
+  | .exponentiation _ => 4
+  | .lookup _ => 0
+  | .lookupTable _ => 0
+  | .noop => 0
+  | .poseidon => 7
+  | .poseidonMds => 1
+  | .publicInput => 1
+  | .randomAccess bits _ _ => bits + 1
+  | .reducing _ => 2
+  | .reducingExt _ => 2
+
+/-- `Gate::num_wires`.  `RandomAccessGate::num_wires` is `wire_bit(bits − 1, num_copies − 1) + 1`
+in `usize` arithmetic; with wrapping subtraction (release builds) that is
+`num_routed_wires + num_copies · bits` for ALL parameters, which is what is modelled here; with
+overflow checks it panics when `bits = 0` or `num_copies = 0` (see `numWiresChecked`).
+`ExponentiationGate::num_wires` is `wire_intermediate_value(n − 1) + 1 = 2 + n + (n − 1) + 1`,
+likewise `2 + 2n` with wrapping arithmetic and a panic for `n = 0` with overflow checks. -/
+def GateKind.numWires : GateKind → Nat
+  | .arithmetic n => n * 4
+  | .arithmeticExt n => n * 4 * 2
+  | .mulExt n => n * 3 * 2
+  | .baseSum _ n => 1 + n
+  | .constant n => n
+  | .cosetInterpolation bits d _ => cosetEnd bits d
+  | .exponentiation n => 2 + 2 * n
+  | .lookup n => n * 2
+  | .lookupTable n => n * 3
+  | .noop => 0
+  | .poseidon => posEnd
+  | .poseidonMds => 2 * 2 * spongeWidth
+  | .publicInput => 4
+  | .randomAccess bits copies extra => raNumRoutedWires bits copies extra + copies * bits
+  | .reducing n => 2 * 2 + n * (2 + 1)
+  | .reducingExt n => 2 * 2 + 2 * 2 * n
+
+/-- `num_wires` under overflow checks: `none` where the `usize` subtraction underflows -/
+def GateKind.numWiresChecked (g : GateKind) : Option Nat :=
+  match g with
+  | .randomAccess bits copies _ => if bits = 0 ∨ copies = 0 then none else some g.numWires
+  | .exponentiation n => if n = 0 then none else some g.numWires
+  | _ => some g.numWires
+
+/-- `Gate::num_constants` -/
+def GateKind.numConstants : GateKind → Nat
+  | .arithmetic _ => 2
+  | .arithmeticExt _ => 2
+  | .mulExt _ => 1
+  | .constant n => n
+  | .randomAccess _ _ extra => extra
+  | _ => 0
+
+/-! ## witness generators (`Gate::generators`, `SimpleGenerator::run_once`) over `GL` -/
+
+/-- write an algebra value to wires `i, i+1` (`set_extension_target` / `set_ext_wires`) -/
+def setAlg (ws : Array GL) (i : Nat) (x : Alg GL) : Array GL := (ws.set! i x.1).set! (i + 1) x.2
+def getAlg (ws : Array GL) (i : Nat) : Alg GL := (ws[i]!, ws[i + 1]!)
+
+/-- `PoseidonGenerator::run_once` -/
+def genPoseidon (ws : Array GL) : Array GL :=
+  let inputs : Array GL := (Array.range spongeWidth).map fun i => ws[posWireInput i]!
+  let swap := ws[posWireSwap]!
+  let ws := (List.range 4).foldl (fun ws i =>
+    ws.set! (posWireDelta i) (swap * (inputs[i + 4]! - inputs[i]!))) ws
+  let state : Array GL :=
+    if swap = 1 then (Array.range spongeWidth).map fun i =>
+      if i < 4 then inputs[i + 4]! else if i < 8 then inputs[i - 4]! else inputs[i]!
+    else inputs
+  let setRow (ws : Array GL) (wire : Nat → Nat) (state : Array GL) : Array GL :=
+    (List.range spongeWidth).foldl (fun ws i => ws.set! (wire i) state[i]!) ws
+  let (state, ws) := (List.range halfNFullRounds).foldl (fun (acc : Array GL × Array GL) r =>
+    let (state, ws) := acc
+    let state := constantLayer state r
+    let ws := if r ≠ 0 then setRow ws (posWireFullSbox0 r) state else ws
+    (mdsLayer (sboxLayer state), ws)) (state, ws)
+  let state := mdsPartialLayerInit (partialFirstConstantLayer state)
+  let (state, ws) := (List.range (nPartialRounds - 1)).foldl (fun (acc : Array GL × Array GL) r =>
+    let (state, ws) := acc
+    let ws := ws.set! (posWirePartialSbox r) state[0]!
+    let s0 := sboxMonomial state[0]! + kOf fastPartialRoundConstants[r]!
+    (mdsPartialLayerFast (state.set! 0 s0) r, ws)) (state, ws)
+  let ws := ws.set! (posWirePartialSbox (nPartialRounds - 1)) state[0]!
+  let state := mdsPartialLayerFast (state.set! 0 (sboxMonomial state[0]!)) (nPartialRounds - 1)
+  let roundCtr := halfNFullRounds + nPartialRounds
+  let (state, ws) := (List.range halfNFullRounds).foldl (fun (acc : Array GL × Array GL) r =>
+    let (state, ws) := acc
+    let state := constantLayer state (roundCtr + r)
+    let ws := setRow ws (posWireFullSbox1 r) state
+    (mdsLayer (sboxLayer state), ws)) (state, ws)
+  setRow ws posWireOutput state
+
+/-- `InterpolationGenerator::run_once` (`shift.inverse()` panics on 0 in Rust; here `inv 0 = 0`) -/
+def genCosetInterpolation (bits degree : Nat) (weights : List Nat) (ws : Array GL) : Array GL :=
+  let n := cosetNumPoints bits
+  let evaluationPoint := getAlg ws (cosetStartEvaluationPoint bits)
+  let shift := ws[0]!
+  let shifted := evaluationPoint.smul (FOps.inv shift)
+  let ws := setAlg ws (cosetWiresShiftedEvaluationPoint bits degree) shifted
+  let domain := (twoAdicSubgroup bits).toArray
+  let values : Array (Alg GL) := (Array.range n).map fun i => getAlg ws (cosetStartValues + 2 * i)
+  let wts := weights.toArray
+  let first := partialInterpolate (cosetTriples domain values wts 0 degree) shifted (Alg.zero, Alg.one)
+  let (ws, last) := (List.range (cosetNumIntermediates bits degree)).foldl
+    (fun (acc : Array GL × (Alg GL × Alg GL)) i =>
+      let (ws, (computedEval, computedProd)) := acc
+      let ws := setAlg ws (cosetWiresIntermediateEval bits i) computedEval
+      let ws := setAlg ws (cosetWiresIntermediateProd bits degree i) computedProd
+      let startIndex := 1 + (degree - 1) * (i + 1)
+      let endIndex := min (startIndex + degree - 1) n
+      (ws, partialInterpolate (cosetTriples domain values wts startIndex endIndex) shifted
+        (computedEval, computedProd)))
+    (ws, first)
+  setAlg ws (cosetStartEvaluationValue bits) last.1
+
+/-- the row after running the gate's generators on it: the input wires are read from `wires`,
+the generator-written wires are overwritten.  Gates without generators (`ConstantGate`,
+`PublicInputGate`, `NoopGate`) and the lookup gates (whose generators depend on the table, not
+on the row's constraints) return the row unchanged. -/
+def GateKind.generate (g : GateKind) (consts : Array GL) (wires : Array GL) : Array GL :=
+  let ws := wires ++ Array.replicate (g.numWires - wires.size) 0
+  match g with
+  | .arithmetic n =>
+    -- `ArithmeticBaseGenerator::run_once`
+    (List.range n).foldl (fun ws i =>
+      ws.set! (4 * i + 3) (ws[4 * i]! * ws[4 * i + 1]! * consts[0]! + ws[4 * i + 2]! * consts[1]!)) ws
+  | .arithmeticExt n =>
+    -- `ArithmeticExtensionGenerator::run_once`
+    (List.range n).foldl (fun ws i =>
+      let m0 := getAlg ws (8 * i); let m1 := getAlg ws (8 * i + 2); let addend := getAlg ws (8 * i + 4)
+      setAlg ws (8 * i + 6) ((m0 * m1).smul consts[0]! + addend.smul consts[1]!)) ws
+  | .mulExt n =>
+    -- `MulExtensionGenerator::run_once`
+    (List.range n).foldl (fun ws i =>
+      setAlg ws (6 * i + 4) ((getAlg ws (6 * i) * getAlg ws (6 * i + 2)).smul consts[0]!)) ws
+  | .baseSum b n =>
+    -- `BaseSplitGenerator::run_once`: little-endian base-B digits of the canonical sum
+    let sum := (ws[0]!).val
+    (List.range n).foldl (fun ws i => ws.set! (1 + i) (GL.ofNat ((sum / b ^ i) % b))) ws
+  | .exponentiation n =>
+    -- `ExponentiationGenerator::run_once`
+    let base := ws[0]!
+    let (ws, _) := (List.range n).foldl (fun (acc : Array GL × GL) i =>
+      let (ws, cur) := acc
+      let cur := if ws[1 + (n - i - 1)]! = 1 then cur * base else cur
+      (ws.set! (2 + n + i) cur, cur * cur)) (ws, (1 : GL))
+    ws.set! (1 + n) ws[2 + n + (n - 1)]!
+  | .randomAccess bits copies extra =>
+    -- `RandomAccessGenerator::run_once`
+    (List.range copies).foldl (fun ws copy =>
+      let accessIndex := (ws[raWireAccessIndex bits copy]!).val
+      let ws := ws.set! (raWireClaimedElement bits copy) ws[raWireListItem bits accessIndex copy]!
+      (List.range bits).foldl (fun ws i =>
+        ws.set! (raWireBit bits copies extra i copy) (GL.ofNat ((accessIndex / 2 ^ i) % 2))) ws) ws
+  | .reducing n =>
+    -- `ReducingGenerator::run_once` (reducing.rs)
+    let alpha := getAlg ws 2
+    ((List.range n).foldl (fun (st : Alg GL × Array GL) i =>
+      let computed := st.1 * alpha + Alg.ofK ws[6 + i]!
+      (computed, setAlg st.2 (redWiresAccs n i) computed)) (getAlg ws 4, ws)).2
+  | .reducingExt n =>
+    -- `ReducingGenerator::run_once` (reducing_extension.rs)
+    let alpha := getAlg ws 2
+    ((List.range n).foldl (fun (st : Alg GL × Array GL) i =>
+      let computed := st.1 * alpha + getAlg ws (6 + 2 * i)
+      (computed, setAlg st.2 (redExtWiresAccs n i) computed)) (getAlg ws 4, ws)).2
+  | .poseidon => genPoseidon ws
+  | .poseidonMds =>
+    -- `PoseidonMdsGenerator::run_once`
+    let inputs : Array (Alg GL) := (Array.range spongeWidth).map fun i => getAlg ws (2 * i)
+    (List.range spongeWidth).foldl (fun ws i =>
+      setAlg ws (2 * (spongeWidth + i)) (mdsRowShfAlg i inputs)) ws
+  | .cosetInterpolation bits d wts => genCosetInterpolation bits d wts ws
+  | _ => ws
+
+/-- the columns written by the gate's generators (`out_buffer.set_*` in the `run_once`s above),
+in increasing order: exactly the values C07 says are pinned by the gate's constraints.
+The lookup gates' generators also write columns (`LookupGate`: the looked-up outputs,
+`LookupTableGate`: the table entries) but those gates have NO constraints of their own — their
+values are pinned by the lookup argument, not by `eval_unfiltered` — so they are not listed. -/
+def GateKind.generatedWires : GateKind → List Nat
+  | .arithmetic n => (List.range n).map fun i => 4 * i + 3
+  | .arithmeticExt n => (List.range n).flatMap fun i => [8 * i + 6, 8 * i + 7]
+  | .mulExt n => (List.range n).flatMap fun i => [6 * i + 4, 6 * i + 5]
+  | .baseSum _ n => (List.range n).map fun i => 1 + i
+  | .cosetInterpolation bits d _ =>
+    -- evaluation value, intermediate evals, intermediate prods, shifted evaluation point
+    let ni := cosetNumIntermediates bits d
+    (List.range (2 + 2 * (2 * ni + 1))).map fun k => cosetStartEvaluationValue bits + k
+  | .exponentiation n => (List.range (n + 1)).map fun i => 1 + n + i
+  | .poseidon => (List.range spongeWidth).map posWireOutput ++
+      (List.range (posEnd - posStartDelta)).map fun k => posStartDelta + k
+  | .poseidonMds => (List.range (2 * spongeWidth)).map fun k => 2 * spongeWidth + k
+  | .randomAccess bits copies extra =>
+    (List.range copies).map (raWireClaimedElement bits) ++
+      (List.range (copies * bits)).map fun k => raNumRoutedWires bits copies extra + k
+  | .reducing n => if n = 0 then [] else
+      [0, 1] ++ (List.range (2 * (n - 1))).map fun k => 6 + n + k
+  | .reducingExt n => if n = 0 then [] else
+      [0, 1] ++ (List.range (2 * (n - 1))).map fun k => 6 + 2 * n + k
   | _ => []
 
 end P2.Gates
